@@ -286,7 +286,7 @@ def entry_point(chk, ex):
     ex.models = G.load_models() + ex.models
     try:
         g = G.Glue(chk, ex)
-        eps = [Endpoint(0, 'GET', '/a', 'Until'), Endpoint(1, 'GET', '/a', 'From'), Endpoint(2, 'PUT', '/a', 'FromUntil')]
+        eps = [Endpoint(0, 'GET', '/a', 'Until'), Endpoint(1, 'GET', '/a', 'From'), Endpoint(2, 'PUT', '/a', 'FromUntil'), Endpoint(3, 'OPTIONS', '/a', 'From')]
         ok_resp = lambda ex: ex.ok(httpmodel.Response(200, httpmodel.HMap(), Opaque('body', 'out')))
         seen = set()
         def check(chk, ex, pc, r, ctx):
